@@ -170,8 +170,18 @@ type k17PolyRec struct {
 	Panic   string `json:"panic"`
 	Got     []int  `json:"got"`
 	Exact   bool   `json:"exact"`
+	Near    bool   `json:"near"`  // every reported value is within 1e-2 of an integer (repeated roots)
 	After   int    `json:"after"` // calls made after the callback returned false
 	Raw     string `json:"raw"`
+}
+
+func k17Near(xs []float64) bool {
+	for _, x := range xs {
+		if !(math.Abs(x-math.Round(x)) < 1e-2) {
+			return false
+		}
+	}
+	return true
 }
 
 func k17Poly(c k17PolyCase, emit func(any)) {
@@ -185,6 +195,7 @@ func k17Poly(c k17PolyCase, emit func(any)) {
 		})
 		if rec.Outcome == "ok" {
 			rec.Got, rec.Exact = k17Ints(roots, 1)
+			rec.Near = k17Near(roots)
 			rec.Raw = k17Raw(roots)
 		}
 		emit(rec)
@@ -207,6 +218,7 @@ func k17Poly(c k17PolyCase, emit func(any)) {
 		})
 		if rec.Outcome == "ok" {
 			rec.Got, rec.Exact = k17Ints(roots, 1)
+			rec.Near = k17Near(roots)
 			rec.Raw = k17Raw(roots)
 		}
 		emit(rec)
@@ -961,8 +973,7 @@ type k17AngleRec struct {
 	Canon   int    `json:"canon"` // CanonicalAngle(k pi/12) * 12/pi
 	CanonEx bool   `json:"canonEx"`
 	InRange bool   `json:"inRange"` // 0 <= result < 2 pi
-	Dist    []int  `json:"dist"`    // AngleDist(k pi/12, j pi/12) * 12/pi for j = -bound..bound
-	DistEx  bool   `json:"distEx"`
+	Dist    []int  `json:"dist"`    // AngleDist(k pi/12, j pi/12) * 12/pi for j = -bound..bound (-1: not a multiple)
 	Raw     string `json:"raw"`
 }
 
@@ -974,11 +985,12 @@ func k17Angle(c k17AngleCase, emit func(any)) {
 		rec.Canon, rec.CanonEx = k17Int(r, 12/math.Pi)
 		rec.InRange = r >= 0 && r < 2*math.Pi
 		rec.Raw = k17Raw(r)
-		rec.DistEx = true
 		for j := -c.Bound; j <= c.Bound; j++ {
 			d, ok := k17Int(toolbox3d.AngleDist(ang(c.K), ang(j)), 12/math.Pi)
+			if !ok {
+				d = -1
+			}
 			rec.Dist = append(rec.Dist, d)
-			rec.DistEx = rec.DistEx && ok
 		}
 	})
 	emit(rec)
